@@ -101,12 +101,12 @@ theorem dictGet_dictInsert_other {ν : Type} (k f : Str) (v : ν) (l : List (Str
 
 /-- an integer stored under an integer parameter is what typed access returns, whatever was there before -/
 theorem getitem_setitem_int (u : URL) (k : Str) (n : Int)
-    (hs : strParams.contains k = false) (hi : intParams.contains k = true) :
+    (hs : k ∉ strParams) (hi : k ∈ intParams) :
     getitem (setitem u k (.i n)) k = .ok (.i n) := by
   simp [getitem, setitem, hs, hi, dictGet_dictInsert_same]
 
 /-- a value stored under a string parameter comes back as its text -/
-theorem getitem_setitem_str (u : URL) (k : Str) (v : PVal) (hs : strParams.contains k = true) :
+theorem getitem_setitem_str (u : URL) (k : Str) (v : PVal) (hs : k ∈ strParams) :
     getitem (setitem u k v) k = .ok (.s v.render) := by
   simp [getitem, setitem, hs, dictGet_dictInsert_same]
 
@@ -131,7 +131,7 @@ theorem keys_dictInsert {ν : Type} (k : Str) (v : ν) (l : List (Str × ν)) :
     obtain ⟨k', v'⟩ := e
     by_cases hk : (k' == k) = true
     · have hkk : k' = k := by simpa using hk
-      simp [dictInsert, hk, hkk]
+      simp [dictInsert, hkk]
     · simp only [Bool.not_eq_true] at hk
       have hne : ¬ k = k' := by
         intro e; subst e; simp at hk
@@ -199,8 +199,9 @@ theorem WF_strVals (u : URL) (h : WF u) : WF (strVals u) := by
     simp only [strVals, List.mem_map] at hp
     obtain ⟨q, hq, rfl⟩ := hp
     exact ⟨(hcl q hq).1, (hcl q hq).2⟩
-  · show ((u.params.map _).map (·.1)).Nodup
-    simpa [List.map_map, Function.comp_def] using hnd
+  · have hk : (strVals u).params.map (·.1) = u.params.map (·.1) := by
+      simp [strVals, List.map_map, Function.comp_def]
+    rw [hk]; exact hnd
   · intro p hp
     simp only [strVals, List.mem_map] at hp
     obtain ⟨q, hq, rfl⟩ := hp
@@ -232,6 +233,6 @@ theorem copy_ok (u : URL) (h : WF u) : copy u = .ok u := by
     intro p hp
     simp only [decide_eq_true_eq, not_or]
     exact h.keys_ok p hp
-  simp [this]
+  simp only [this, Bool.false_eq_true, if_false]
 
 end Nx.Nex.ObjWalk
